@@ -18,7 +18,7 @@ Requirements for each of the two changes (call them m1 and m2; they must use dif
 1. It is a small edit to non-test library source (a few lines; do not edit, delete or add *_test.go files in the patch; do not touch go.mod). It must look like a plausible developer slip or "optimisation" (dropped check, reordered statements, wrong variable, shared buffer, missing copy, off-by-one in a guard, early return before state is initialised, check moved to only one branch, error ignored ...), not like sabotage with a magic constant.
 2. With the change applied, `cd {wt} && go build ./... && go test -mod=mod -vet=off -count=1 ./...` still passes completely (takes ~25 s; run it; use the default `go` on PATH and do NOT set GOTOOLCHAIN/GOSUMDB/GOFLAGS env vars — the repo needs go1.25 auto-switching which already works offline; there is no network).
 3. The change makes the property false, but only under something specific: an unusual input, a particular aliasing of receiver/operands, a multi-step sequence of API calls, a particular interleaving of goroutines, a fault at a particular point, or two cooperating sites that each look fine alone. Changes that ordinary use would expose at once are not wanted.
-4. Provide a demonstration: a Go test file (package-external or internal, your choice) that FAILS with the change applied and PASSES on the unmodified tree. Verify both directions yourself (git stash / git checkout to flip).
+4. Provide a demonstration: a Go test file (package-external or internal, your choice) that FAILS with the change applied and PASSES on the unmodified tree. Verify both directions yourself. NEVER use `git stash` (the stash is shared between worktrees of other agents); to flip use `git diff > /tmp/mut/<id>.patch && git checkout -- .` and `git apply`.
 
 Deliverables, for i in 1,2, in {out}/m<i>/ :
   - patch.diff   : output of `git -C {wt} diff` for the library change only (must apply cleanly with `git apply` to a pristine checkout)
